@@ -20,6 +20,7 @@ def run(ctx, rep):
         rep.analysed["bodies" + tag] = len(prog.bodies)
         group_fmmus(prog, rep, tag)
         device_fmmus(prog, rep, tag)
+        reconfigure(prog, rep, tag)
         threading(prog, rep, tag)
         tables(prog, rep, tag)
         guards(prog, rep, tag)
@@ -131,6 +132,98 @@ def device_fmmus(prog, rep, tag):
         ok = ok and has_root(r, "binop", "Sub") and (has_root(r, "await", "configuration::configure_pdos_eeprom") or has_root(r, "await", "configuration::configure_pdos_coe"))
     wr = {a[3]["p"][-1]["n"] if isinstance(a[3]["p"][-1], dict) else None for a in q.field_accesses(cf, "IoRanges", "input") + q.field_accesses(cf, "IoRanges", "output") if a[2] == "write"}
     rep.ob(P, "configure_fmmus:io-ranges" + tag, ok and wr == {"input", "output"}, "io.input / io.output are the configured segment minus the group's start address", loc=cf.span, how="dataflow")
+
+
+def reconfigure(prog, rep, tag):
+    """The group typestate allows SAFE-OP -> PRE-OP -> SAFE-OP, so SM/FMMU configuration can run more than
+    once against FMMU registers that are only zeroed by MainDevice::init.  An existing FMMU mapping may
+    therefore be *extended* (length += SM length) only when this very configuration pass wrote it: the
+    edge into the extension must be guarded by a value that does not come from the device (a parameter /
+    pass-local flag), or else the way back to PRE-OP must clear the FMMU registers."""
+    P = "C08.reconf"
+    b = prog.async_body("configuration::write_fmmu_config")
+    pr = Prov(b)
+    ext = [a for a in q.field_accesses(b, "Fmmu", "length_bytes") if a[2] == "write"]
+    d = {"extension-sites": len(ext)}
+    ok = True
+    if ext:
+        for (bi, si, _k, _pl) in ext:
+            local_guard = False
+            device_guard = False
+            for cd in q.conds(b):
+                for tgt in {a[1] for a in cd.arms} | {cd.otherwise}:
+                    if tgt is None or bi not in q.edge_dominated(b, cd.bb, tgt):
+                        continue
+                    # the edge must be the one on which the switched value is non-zero (true)
+                    if tgt != cd.otherwise and not (len(cd.arms) >= 1 and all(a[0] != 0 for a in cd.arms if a[1] == tgt)):
+                        continue
+                    r = pr.of_operand(cd.t["d"])
+                    from_dev = any(x[0] == "await" or (x[0] == "field" and x[1] == "Fmmu") for x in r)
+                    from_arg = any((x[0] == "arg" and x[1] >= 2) or (x[0] == "upvar" and x[-1] not in ("self", "sm_config", "global_offset")) for x in r)
+                    if from_arg and not from_dev:
+                        local_guard = True
+                    if from_dev:
+                        device_guard = True
+            d["guard@bb%d" % bi] = "pass-local" if local_guard else ("device-only" if device_guard else "none")
+            ok = ok and local_guard
+        if not ok:
+            # alternative: the SAFE-OP -> PRE-OP transition clears the FMMU registers
+            ok = _back_to_pre_op_clears_fmmus(prog, d)
+    # the flag handed in by the callers: false for the first SM using an FMMU in this pass
+    if ok and ext and any(v == "pass-local" for v in d.values()):
+        for fn, want in (("configuration::configure_pdos_coe", "flag"), ("configuration::configure_pdos_eeprom", "const-false")):
+            cb = prog.async_body(fn)
+            calls = cb.calls_to("configuration::write_fmmu_config")
+            if len(calls) != 1 or len(calls[0].args) < 7:
+                d[fn] = "no-flag-argument"
+                ok = False
+                continue
+            a = calls[0].args[6]
+            if q.const_int(a) == 0:
+                d[fn] = "const-false"
+                continue
+            # a bool local: initialised false before the SM loop, set true only after a write_fmmu_config call
+            l = q.local_of(a)
+            defs = [x for x in cb.defs().get(l, [])] if l is not None else []
+            src = None
+            if len(defs) == 1 and defs[0][2] == "assign" and defs[0][3]["rv"]["k"] == "use":
+                src = q.local_of(defs[0][3]["rv"]["a"][0])
+            fl = src if src is not None else l
+            fdefs = cb.defs().get(fl, [])
+            vals = [(x[0], q.const_int(x[3]["rv"]["a"][0]) if x[2] == "assign" and x[3]["rv"]["k"] == "use" else None) for x in fdefs]
+            init0 = [x for x in vals if x[1] == 0]
+            set1 = [x for x in vals if x[1] == 1]
+            good = len(init0) == 1 and len(set1) >= 1 and len(init0) + len(set1) == len(vals)
+            good = good and calls[0].bb not in cb.reachable_strict(init0[0][0]) or (good and cb.dominates(init0[0][0], calls[0].bb) and init0[0][0] not in cb.reachable_strict(calls[0].bb))
+            good = good and all(cb.dominates(calls[0].bb, x[0]) for x in set1)
+            d[fn] = "flag:false-before-loop,true-after-first-write" if good else "flag-not-understood %s" % vals
+            ok = ok and good
+    rep.ob(P, "extend-only-own-mapping" + tag, ok, "an FMMU read back from the device is extended only when this configuration pass wrote it (SAFE-OP -> PRE-OP -> SAFE-OP configures again; stale mappings are replaced); %s" % d, loc=b.span)
+
+
+def _back_to_pre_op_clears_fmmus(prog, d):
+    """True if every function that moves a group back to PRE-OP also writes to the FMMU registers."""
+    fns = []
+    for body in prog.bodies:
+        if "SubDeviceGroup" not in body.short:
+            continue
+        for c in body.calls_to("SubDeviceGroup::transition_to"):
+            if any(x[0] == "agg" and x[1] == "SubDeviceState" and x[2] == "PreOp" for x in Prov(body).of_operand(c.args[2])):
+                fns.append(body)
+    d["back-to-pre-op"] = [f.short for f in fns]
+    if not fns:
+        return True
+    for f in fns:
+        cl = prog.callees_closure([f], depth=3)
+        hit = False
+        for g in cl:
+            for c in g.calls():
+                if c.is_("RegisterAddress::fmmu") or any(x[0] == "agg" and x[1] == "RegisterAddress" and str(x[2]).startswith("Fmmu") for a in c.args for x in Prov(g).of_operand(a)):
+                    hit = True
+        if not hit:
+            d["no-fmmu-clear-in"] = f.short
+            return False
+    return True
 
 
 def threading(prog, rep, tag):
